@@ -269,6 +269,28 @@ def run(ck, F):
                         bad.append('fields of ' + contracts.short(s2.heap[oid].cls))
             ck.check(R5b, inst, not bad, f'{inst} writes to the graph: {sorted(set(bad))[:3]}', loc=fn['loc'], fn=fn['id'])
 
+    # ---------------------------------------------------------------- nothing is left indeterminate by a constructor
+    import initrule as _initrule
+    R_ind = ck.rule('C17.locations-initialised', 'every user-provided constructor of a statement / declaration class leaves the source and unit location of the new node determinate (the location structs initialise their own members, or the constructor does): a node that was given no location prints none, not whatever the storage held before -- which would differ between two Lexicons with different allocation histories', floor=200)
+    _SINGULAR = {'ipr::Sequence<': 'a default-constructed Sequence<T>::Iterator is a singular iterator (it may only be assigned to), as the '
+                 'iterator requirements allow; the library never reads one'}
+    for name_, r_ in sorted(F.rec.items()):
+        if not name_.startswith('ipr::') or r_.get('lambda'):
+            continue
+        for m_ in r_['methods']:
+            c_ = F.fn.get(m_['id']) if m_.get('ctor') else None
+            if c_ is None or c_.get('implicit') or c_.get('defaulted') or c_.get('body') is None or c_.get('copy'):
+                continue
+            leaves = _initrule.ctor_leaves(F, c_)
+            leaves = [l for l in leaves if any(x in l for x in ('locus', 'location', 'line', 'column', 'file', 'unit'))]
+            why = next((w for k_, w in _SINGULAR.items() if name_.startswith(k_) and name_.endswith('::Iterator')), None)
+            if leaves and why:
+                ck.note(f'{contracts.short(name_)}: {why}')
+                leaves = []
+            ck.check(R_ind, contracts.short(contracts.fn_qname(c_['id'])) + '/' + str(len(c_['params'])), not leaves,
+                     f'{c_["id"]} leaves {leaves[:4]} of the {contracts.short(name_)} it constructs indeterminate (no initialiser in the constructor, no default '
+                     'member initialiser, and default-initialisation of that member does nothing)', loc=c_['loc'], fn=c_['id'])
+
     # ---------------------------------------------------------------- locations are printed for every statement printed
     R6b = ck.rule('C17.locations-printed', 'every dispatch of a node that may be a statement (its static type derives from ipr::Stmt, or is a '
                   'base of it) into one of the visitors that print statements and declarations is preceded, in the same function, by '
